@@ -238,7 +238,23 @@ func FillOperands(t *rapid.T, c *Case) {
 func DivPair(t *rapid.T, ctx core.Ctx) (x, y core.Dec) {
 	p := int(ctx.P)
 	y = gen.NonZero(t, ctx, "y")
-	switch gen.Pick(t, 6, "divk") {
+	switch gen.Pick(t, 7, "divk") {
+	case 6: // exponent gap beyond the 128-entry power table, quotient of P-1..P+1 digits
+		g := rapid.IntRange(129, 300).Draw(t, "gap")
+		x = core.Dec{Coeff: gen.Digits(t, 5, "xs"), Neg: rapid.Bool().Draw(t, "xneg")}
+		if x.Coeff == "0" {
+			x.Coeff = "2"
+		}
+		ny := len(x.Coeff) + g - p + rapid.IntRange(-1, 1).Draw(t, "qd")
+		if ny < 1 {
+			ny = 1
+		}
+		y.Coeff = gen.DigitsN(t, ny, gen.Pick(t, 10, "ykind"), "ylong")
+		if y.Coeff == "0" {
+			y.Coeff = "7"
+		}
+		y.Exp = int32(rapid.IntRange(-20, 20).Draw(t, "ye"))
+		x.Exp = y.Exp + int32(g)
 	case 0, 1: // independent
 		x = gen.Finite(t, ctx, "x")
 		x.Exp = clamp32(int64(y.Exp) + int64(rapid.IntRange(-2*p-4, 2*p+4).Draw(t, "gap")))
